@@ -84,6 +84,21 @@ def run(ctx, rep):
         admitted = [g for g in D.guards if not g[2]]
         rep.analysed["guards/lm=%d" % lm] = {"comparisons": len(D.guards),
                                              "admitted_absolute_thresholds": len(admitted)}
+    # the DHW renewable fraction is part of the results: its independence of the area and its scale-free guards are
+    # decided by the C15 pack (W1 area / W2 degree), re-stated here
+    from . import c15
+    from .common import Report
+    sub15 = Report("C15")
+    c15.run(ctx, sub15)
+    w = [o for o in sub15.obligations if o.key.startswith(("C15/W1/arearef", "C15/W2/"))]
+    if len(w) < 4:
+        rep.violated("C11/dhw/anchor", "the DHW indicator is analysable", why="%d C15 obligations" % len(w))
+    for o in w:
+        k = "C11/dhw/" + "/".join(o.key.split("/")[1:])
+        if o.status == "discharged":
+            rep.discharged(k, "DHW renewable fraction: " + o.clause, nontrivial=False)
+        else:
+            rep.violated(k, "the DHW renewable fraction does not change with the energy scale or the reference area", construct=o.construct, why=o.why)
     nnorm = normalisation_guards(ctx, rep)
     rep.analysed["normalisation_comparisons"] = nnorm
     rep.floor("normalisation-comparisons", nnorm, 3)
